@@ -85,6 +85,11 @@ const NEVER_RUN: usize = usize::MAX;
 /// Runs the program up to turn boundary `k` and suspends there. Returns None if the run has
 /// fewer boundaries. The history (host calls) is returned for replay files.
 fn suspend_at(p: &Prog, k: usize) -> Option<(Sess, Vec<Ev>, Option<u64>)> {
+    suspend_at_with(p, k, 3)
+}
+
+/// `pre`: bit 0 = type FOR K=1 TO 3 before the edit, bit 1 = type READ Z9 before the edit.
+fn suspend_at_with(p: &Prog, k: usize, pre: u8) -> Option<(Sess, Vec<Ev>, Option<u64>)> {
     let mut s = Sess::new();
     let mut hist = vec![];
     for l in &p.lines {
@@ -133,8 +138,11 @@ fn suspend_at(p: &Prog, k: usize) -> Option<(Sess, Vec<Ev>, Option<u64>)> {
         let _ = s.apply(&Ev::Break);
         hist.push(Ev::Break);
     }
-    for pre in [PRE_EDIT, PRE_EDIT_READ] {
-        let e = Ev::Line(pre.to_string());
+    for (bit, line) in [(1u8, PRE_EDIT), (2u8, PRE_EDIT_READ)] {
+        if pre & bit == 0 {
+            continue;
+        }
+        let e = Ev::Line(line.to_string());
         let _ = s.apply(&e);
         hist.push(e);
     }
@@ -215,10 +223,14 @@ pub fn run(thorough: bool) -> Report {
             } else {
                 PROBES.iter().map(|p| vec![*p]).collect()
             };
-            for probes in probe_sets {
+            for (probes, pre) in probe_sets.iter().flat_map(|ps| [3u8, 2, 1, 0].into_iter().map(move |m| (ps.clone(), m))) {
+                // pairs of probes only with both pre-edit lines typed
+                if probes.len() > 1 && pre != 3 {
+                    continue;
+                }
                 runs += 1;
-                let (mut s, mut hist, _) = suspend_at(p, *k).unwrap();
-                let (mut base, _, _) = suspend_at(p, *k).unwrap();
+                let (mut s, mut hist, _) = suspend_at_with(p, *k, pre).unwrap();
+                let (mut base, _, _) = suspend_at_with(p, *k, pre).unwrap();
                 let mk = |sig: String, detail: String, hist: &Vec<Ev>| Violation {
                     signature: format!("{} {:?}: {}", p.name, e, sig),
                     detail,
